@@ -271,3 +271,360 @@ def campaign_c05(seed, tier):
     for i in range(16 if tier == "quick" else 300):
         scs.append(sc_history("c05-hist-%d" % i, rng.randrange(1 << 30), n=60, wild=0.0 if i % 2 else 0.2))
     return scs
+
+
+# --------------------------------------------------------------------------- C04
+V32 = [0, 1, 0xFF, 0x100, 0xFFFF, 0x10000, 0x7FFFFFFF, 0x80000000, 0xFFFFFFFF, 0x01020304, 0xA1B2C3D4]
+V16 = [0, 1, 0x2000, 0x0800, 0x8000, 0xFFFF, 0x00FF, 0xFF00, 0x2800]
+ATTR_GETTERS = [4, 6, 7, 8, 9, 10, 11, 12, 13, 14]   # getters whose failure leaves only their own TLV free
+
+
+def rnd_attrs(rng, wifi):
+    def v32():
+        return rng.choice(V32) if rng.random() < 0.7 else rng.randrange(1 << 32)
+    a = dict(ipv4=bytes(rng.randrange(256) for _ in range(4)) if rng.random() < 0.7 else (rng.choice(V32)).to_bytes(4, "big"),
+             ipv6=bytes(rng.randrange(256) for _ in range(16)), speed=v32(), iftype=v32(),
+             flags=rng.choice(V16) if rng.random() < 0.6 else rng.randrange(1 << 16))
+    if wifi:
+        a.update(wmode=rng.choice([0, 1, 2, 255]), bssid=rnd_mac(rng),
+                 ssid=bytes(rng.randrange(256) for _ in range(rng.randrange(0, 41))),
+                 rate=rng.choice([0, 1, 108, 0xFF, 0x100, 0xFFFF, rng.randrange(65536)]),
+                 rssi=rng.choice([-128, -127, -1, 0, 1, 127, -57, rng.randrange(-128, 128)]))
+    return a
+
+
+def sc_c04(name, seed, n):
+    rng = random.Random(seed)
+    s = Script()
+    for i in range(n):
+        wifi = rng.choice([0, 1])
+        hostlen = i % 41 if rng.random() < 0.5 else rng.randrange(0, 41)
+        host = bytes(rng.choice([0x41 + rng.randrange(26), rng.randrange(256)]) for _ in range(hostlen))
+        s.cfg(host=host, icon=(100, 1), name=(10, 2), hwid=b"")
+        own = rnd_mac(rng)
+        s.boot(1, own, mtu=rng.choice(MTUS), wifi=wifi, fill=rng.choice([0xA5, 0x5A, 0, 0xFF]), **rnd_attrs(rng, wifi))
+        m = rng.choice([M1, M2])
+        if rng.random() < 0.35:
+            mask = 0
+            for g in ATTR_GETTERS:
+                if rng.random() < 0.25:
+                    mask |= 1 << g
+            s.fault(get=mask)
+        s.rx(1, discover(rng.choice([0, 1]), m, gen=rng.randrange(65536), seq=rng.randrange(65536),
+                         eth_src=m if rng.random() < 0.7 else BR))
+        s.clear()
+        s.rx(1, discover(rng.choice([0, 1]), m, gen=rng.randrange(65536), seq=rng.randrange(65536)))
+    return Scenario(name, s.lines)
+
+
+def campaign_c04(seed, tier):
+    rng = random.Random(seed)
+    per = 100
+    n = 32 if tier == "quick" else 1000
+    return [sc_c04("c04-attrs-%d" % i, rng.randrange(1 << 30), per) for i in range(n)]
+
+
+# --------------------------------------------------------------------------- C06
+def sc_c06(name, seed, mtu, bridged):
+    rng = random.Random(seed)
+    s = new_script(mtu=mtu)
+    cap = (mtu - 34) // 14
+    m = M1
+    eth = BR if bridged else m
+    s.rx(1, discover(0, m, eth_src=eth, gen=3, seq=1))
+    seq = rng.randrange(1, 0xFFF0)
+
+    def descs(n):
+        return [(rng.choice([0, 1]), rng.choice([0, 0, 1, 255, rng.randrange(256)]),
+                 rng.choice([OWN, rnd_mac(rng)]), rng.choice([PEER, X, rnd_mac(rng)])) for _ in range(n)]
+
+    ns = [1, 2, 3, cap - 1, cap] + [rng.randrange(1, cap + 1) for _ in range(3)]
+    for n in ns:
+        seq += 1
+        s.rx(1, emit(m, OWN, descs(n), seq=seq, eth_src=eth if rng.random() < 0.8 else m))
+    # declared counts exceeding what the frame carries
+    for n in [1, 2, rng.randrange(1, 10)]:
+        for declared in [n + 1, cap + 1, 0xFFFF, rng.randrange(n + 1, 0x10000)]:
+            seq += 1
+            s.rx(1, emit(m, OWN, descs(n), seq=seq, eth_src=eth, declared=declared), fill=rng.choice([0, 1, 0xFF, 3]))
+    # out of domain: stranger, zero descriptors, unknown kinds, sequence number 0
+    s.rx(1, emit(X, OWN, descs(2), seq=seq + 1))
+    s.rx(1, emit(m, OWN, [], seq=seq + 2, eth_src=eth))
+    s.rx(1, emit(m, OWN, [(2, 0, OWN, PEER), (1, 0, OWN, PEER)], seq=seq + 3, eth_src=eth))
+    s.rx(1, emit(m, OWN, [(1, 0, OWN, PEER), (7, 0, OWN, PEER)], seq=seq + 4, eth_src=eth))
+    s.rx(1, emit(m, OWN, descs(2), seq=0, eth_src=eth))
+    # state dependence: after Reset no mapper is active; after a new Discover the new one is
+    s.rx(1, reset(m))
+    s.rx(1, emit(m, OWN, descs(2), seq=seq + 5, eth_src=eth))
+    s.rx(1, reset(m))
+    s.rx(1, discover(1, M2, gen=4, seq=9))
+    s.rx(1, emit(M2, OWN, descs(3), seq=seq + 6))
+    s.rx(1, emit(m, OWN, descs(1), seq=seq + 7))
+    return Scenario(name, s.lines)
+
+
+def campaign_c06(seed, tier):
+    rng = random.Random(seed)
+    scs = []
+    reps = 2 if tier == "quick" else 30
+    for r in range(reps):
+        for mtu in MTUS:
+            for bridged in (0, 1):
+                scs.append(sc_c06("c06-%d-%d-%d" % (mtu, bridged, r), rng.randrange(1 << 30), mtu, bridged))
+    for i in range(8 if tier == "quick" else 200):
+        scs.append(sc_history("c06-hist-%d" % i, rng.randrange(1 << 30), n=50, wild=0.1, mtu=rng.choice(MTUS)))
+    return scs
+
+
+# --------------------------------------------------------------------------- C07
+def sc_c07_drain(name, seed, mtu, k, dups, foreign, bridged=False, interleave=True):
+    rng = random.Random(seed)
+    s = new_script(mtu=mtu)
+    m = M1
+    eth = BR if bridged else m
+    s.rx(1, discover(0, m, eth_src=eth, gen=5, seq=1))
+    seen = []
+    for i in range(k):
+        rs = bytes([0x02, 0x10, (seed >> 8) & 0xFF, seed & 0xFF, i >> 8, i & 0xFF])
+        es = rs if rng.random() < 0.6 else rnd_mac(rng)
+        ed = OWN if rng.random() < 0.7 else rnd_mac(rng)
+        f = probe(es, ed, rs, OWN, train=rng.random() < 0.4)
+        seen.append(f)
+        s.rx(1, f)
+        if dups and rng.random() < 0.3:
+            s.rx(1, rng.choice(seen))
+        if foreign and rng.random() < 0.3:
+            s.rx(1, probe(rnd_mac(rng), rng.choice([OWN, PEER]), rnd_mac(rng), PEER, train=rng.random() < 0.5))
+        if interleave and rng.random() < 0.05:
+            s.rx(1, rng.choice([discover(0, m, eth_src=eth, gen=5, seq=2),
+                                emit(m, OWN, [(1, 0, OWN, PEER)], seq=40 + i, eth_src=eth),
+                                query_large(m, OWN, 0x11, 0, seq=41 + i, eth_src=eth),
+                                discover(0, X, gen=9, seq=3)]))
+    s.drain(1, query(m, OWN, seq=100, eth_src=eth), k + 3)
+    s.rx(1, query(m, OWN, seq=900, eth_src=eth))
+    return Scenario(name, s.lines, {"k": k, "mtu": mtu})
+
+
+def sc_c07_misc(name, seed, mtu):
+    """key collisions, Reset discarding the record, observations while no mapper is active"""
+    rng = random.Random(seed)
+    s = new_script(mtu=mtu)
+    a, b = rnd_mac(rng), rnd_mac(rng)
+    s.rx(1, probe(a, OWN, b, OWN))
+    s.rx(1, probe(a, PEER, b, OWN))           # same (Ethernet source, real source), other destination
+    s.rx(1, probe(a, OWN, b, OWN, train=True))  # identical addresses, other kind
+    s.rx(1, probe(b, OWN, a, OWN))
+    s.rx(1, query(M1, OWN, seq=5))
+    s.rx(1, query(M1, OWN, seq=6))
+    for i in range(5):
+        s.rx(1, probe(rnd_mac(rng), OWN, rnd_mac(rng), OWN))
+    s.rx(1, reset(M1))
+    s.rx(1, query(M1, OWN, seq=7))
+    for i in range(4):
+        s.rx(1, probe(rnd_mac(rng), OWN, rnd_mac(rng), OWN, train=True))
+    s.rx(1, reset(M1, tos=1))
+    s.rx(1, discover(0, M2, gen=1, seq=1, eth_src=BR))
+    s.rx(1, query(M2, OWN, seq=8, eth_src=BR))
+    s.rx(1, query(M2, OWN, seq=9, eth_src=BR))
+    return Scenario(name, s.lines)
+
+
+def campaign_c07(seed, tier):
+    rng = random.Random(seed)
+    scs = []
+    for mtu in MTUS:
+        cap = (mtu - 34) // 20
+        if tier == "quick":
+            ks = sorted(set([0, 1, 2, cap - 1, cap, cap + 1, 2 * cap, 2 * cap + 1, 100, 300] + [rng.randrange(0, 301) for _ in range(2)]))
+        else:
+            ks = list(range(0, 301))
+        for k in ks:
+            if k > 300:
+                continue
+            scs.append(sc_c07_drain("c07-drain-%d-%d" % (mtu, k), rng.randrange(1 << 16), mtu, k, dups=True, foreign=True,
+                                    bridged=(k % 3 == 1)))
+        scs.append(sc_c07_misc("c07-misc-%d" % mtu, rng.randrange(1 << 16), mtu))
+    for i in range(8 if tier == "quick" else 200):
+        scs.append(sc_history("c07-hist-%d" % i, rng.randrange(1 << 30), n=60, wild=0.05, mtu=rng.choice(MTUS)))
+    return scs
+
+
+# --------------------------------------------------------------------------- C08
+def sc_c08(name, seed, mtu, isize, nsize, hwid, tier):
+    rng = random.Random(seed)
+    s = Script()
+    s.cfg(icon=None if isize is None else (isize, rng.randrange(256)), name=None if nsize is None else (nsize, rng.randrange(256)), hwid=hwid)
+    s.boot(1, OWN, mtu=mtu, **attrs_default())
+    cap = mtu - 34
+    m = M1
+    s.rx(1, discover(0, m, gen=1, seq=1))
+    seq = 10
+    for typ, size in ((0x0E, isize or 0), (0x11, nsize or 0), (0x13, len(hwid))):
+        s.drain(1, query_large(m, OWN, typ, 0, seq=seq), 40, large=True)
+        seq += 50
+        offs = [0, 1, cap - 1, cap, cap + 1, size - 1 if size > 0 else 0, size, size + 1, 65535,
+                max(0, size - cap), max(0, size - cap - 1), max(0, size - cap + 1)] + [rng.randrange(65536) for _ in range(3)]
+        for off in offs:
+            if 0 <= off <= 65535:
+                seq += 1
+                s.rx(1, query_large(m, OWN, typ, off, seq=seq, tos=rng.choice([0, 0, 1])))
+    for typ in (0x00, 0x0F, 0x12, 0x14, 0x1A, 0xFF, rng.randrange(256)):
+        seq += 1
+        s.rx(1, query_large(m, OWN, typ, rng.choice([0, 5]), seq=seq))
+    s.rx(1, query_large(m, OWN, 0x0E, 0, seq=0))
+    s.rx(1, query_large(m, OWN, 0x11, 0, seq=0, tos=1))
+    # the cached icon must not survive a Reset with a stale size: re-query after Reset
+    s.rx(1, reset(m))
+    s.rx(1, query_large(m, OWN, 0x0E, 0, seq=seq + 1))
+    s.rx(1, query_large(m, OWN, 0x0E, 7, seq=seq + 2, eth_src=BR))
+    return Scenario(name, s.lines)
+
+
+def campaign_c08(seed, tier):
+    rng = random.Random(seed)
+    scs = []
+    hw = "{6B29FC40-CA47-1067-B31D-00DD010662DA}".encode("utf-16le")[:64]
+    for mtu in MTUS:
+        cap = mtu - 34
+        sizes = [0, 1, cap - 1, cap, cap + 1, 2 * cap - 1, 2 * cap, 2 * cap + 1, 16383, 16384, 32768]
+        sizes += [rng.randrange(0, 32769) for _ in range(2 if tier == "quick" else 60)]
+        if tier == "thorough":
+            sizes += [j * cap + d for j in range(1, 5) for d in (-2, -1, 0, 1, 2)]
+        for i, sz in enumerate(sizes):
+            if sz > 32768:
+                continue
+            nsz = rng.choice([0, 1, 20, 64, cap, cap + 1, rng.randrange(0, 4000)])
+            hwid = rng.choice([hw, b"", hw[:2], hw[:62], (hw + hw)[:64]])
+            scs.append(sc_c08("c08-%d-%d" % (mtu, i), rng.randrange(1 << 30), mtu, sz, nsz, hwid, tier))
+        scs.append(sc_c08("c08-%d-absent" % mtu, rng.randrange(1 << 30), mtu, None, None, b"", tier))
+    return scs
+
+
+# --------------------------------------------------------------------------- C09
+def characterisation(rng, own=OWN):
+    """continuation frames that read every piece of state back out"""
+    c = []
+    for m in (M1, X):
+        c.append(discover(0, m, gen=0x0A0A, seq=1))
+        c.append(discover(1, m, gen=0, seq=2))
+    c.append(emit(M1, own, [(1, 0, own, PEER), (0, 1, own, X)], seq=3))
+    c.append(query(M1, own, seq=4))
+    for typ in (0x0E, 0x11, 0x13):
+        c.append(query_large(M1, own, typ, 0, seq=5))
+        c.append(query_large(M1, own, typ, 9, seq=6, tos=1))
+    c.append(probe(PEER, own, PEER, own))
+    c.append(query(M1, own, seq=7))
+    c.append(discover(0, M2, gen=1, seq=8))
+    c.append(reset(M1, tos=1))
+    c.append(discover(1, M2, gen=0, seq=9, eth_src=BR))
+    c.append(emit(M2, own, [(0, 0, own, PEER)], seq=10, eth_src=BR))
+    return c
+
+
+def sc_c09(name, seed, mtu, wild, nh, wifi=0):
+    rng = random.Random(seed)
+    s = new_script(mtu=mtu, wifi=wifi, twins=True)
+    h = Hist(rng, mtu=mtu, wild=wild)
+    for f in h.frames(nh):
+        if rng.random() < 0.1:
+            f = mutate(rng, f, mtu)
+        s.rx(1, f)
+    s.rx(1, reset(rng.choice(STATIONS)))
+    cont = characterisation(rng)
+    h2 = Hist(random.Random(seed + 1), mtu=mtu, wild=0.2)
+    cont += h2.frames(25)
+    rng.shuffle(cont)
+    for f in cont:
+        s.rx([1, 2], f)
+    return Scenario(name, s.lines)
+
+
+def campaign_c09(seed, tier):
+    rng = random.Random(seed)
+    scs = []
+    for i in range(32 if tier == "quick" else 600):
+        scs.append(sc_c09("c09-%d" % i, rng.randrange(1 << 30), MTUS[i % 3], [0.0, 0.2, 0.5][i % 3], rng.choice([0, 1, 5, 30, 80]), wifi=i % 2))
+    return scs
+
+
+# --------------------------------------------------------------------------- C19
+def sc_c19_flood(name, seed, mtu, n):
+    s = new_script(mtu=mtu)
+    s.rx(1, reset(M1))
+    s.rx(1, discover(0, M1, gen=1, seq=1))
+    s.flood(1, n, seed & 0xFFFF)
+    s.rx(1, reset(M1))
+    s.rx(1, discover(0, M1, gen=1, seq=1))
+    s.rx(1, query(M1, OWN, seq=2))
+    s.rx(1, reset(M1))
+    return Scenario(name, s.lines)
+
+
+def sc_c19_idem(name, seed, mtu):
+    rng = random.Random(seed)
+    s = new_script(mtu=mtu, wifi=seed & 1)
+    s.rx(1, reset(M1))
+    h = Hist(rng, mtu=mtu, wild=0.1)
+    for f in h.frames(50):
+        s.rx(1, f)
+        s.rx(1, f)
+        if rng.random() < 0.15:
+            s.rx(1, reset(M1))
+    s.rx(1, reset(M2))
+    return Scenario(name, s.lines)
+
+
+def campaign_c19(seed, tier):
+    rng = random.Random(seed)
+    scs = []
+    n = 10000 if tier == "quick" else 100000
+    for mtu in MTUS:
+        scs.append(sc_c19_flood("c19-flood-%d" % mtu, rng.randrange(1 << 30), mtu, n))
+    for i in range(13 if tier == "quick" else 300):
+        scs.append(sc_c19_idem("c19-idem-%d" % i, rng.randrange(1 << 30), MTUS[i % 3]))
+    return scs
+
+
+# --------------------------------------------------------------------------- C10
+def sc_c10(name, seed, mtu):
+    """two instances of this responder (interfaces 1 = A, 2 = B) on one segment; the mapper orders
+    A to emit towards B; A's frames are delivered verbatim to B; B is queried"""
+    rng = random.Random(seed)
+    a_mac, b_mac = rnd_mac(rng), rnd_mac(rng)
+    while b_mac == a_mac:
+        b_mac = rnd_mac(rng)
+    s = Script()
+    std_cfg(s)
+    s.boot(1, a_mac, mtu=mtu, fill=0xA5, **attrs_default())
+    s.boot(2, b_mac, mtu=mtu, fill=0x5A, **attrs_default())
+    m = M1
+    gen = rng.randrange(1, 65536)
+    s.rx([1], discover(0, m, gen=gen, seq=1))
+    s.rx([2], discover(0, m, gen=gen, seq=1))
+    seq = 10
+    for rnd in range(rng.randrange(2, 5)):
+        n = rng.randrange(1, 6)
+        descs = []
+        for i in range(n):
+            src = rng.choice([a_mac, a_mac, rnd_mac(rng)])
+            dst = rng.choice([b_mac, b_mac, b_mac, X])
+            descs.append((rng.choice([0, 1]), rng.choice([0, 1, 7, 255]), src, dst))
+        seq += 1
+        # unrelated traffic interleaved
+        if rng.random() < 0.5:
+            s.rx([2], probe(X, b_mac, X, b_mac))
+        if rng.random() < 0.3:
+            s.rx([2], hello(0, PEER, gen, m, m))
+        s.rx([1], emit(m, a_mac, descs, seq=seq))
+        s.pipe(1, 2)
+        if rng.random() < 0.4:
+            s.rx([2], query_large(m, b_mac, 0x11, 0, seq=seq + 100))
+        if rng.random() < 0.6 or rnd == 0:
+            s.drain(2, query(m, b_mac, seq=seq + 200), 5)
+    s.drain(2, query(m, b_mac, seq=999), 5)
+    return Scenario(name, s.lines)
+
+
+def campaign_c10(seed, tier):
+    rng = random.Random(seed)
+    return [sc_c10("c10-%d" % i, rng.randrange(1 << 30), MTUS[i % 3]) for i in range(48 if tier == "quick" else 1500)]
